@@ -177,7 +177,7 @@ def check(sim, case, st):
         st.probes['concurrent-put'] += 1
         st.probes['context-switches'] += sch.switches
         # the empty process read the clock; the put's readings belong to the put
-        r.clock = [v for (pid_, v) in P.CLOCK.readings if pid_ == r.pid]
+        r.clock = [x[1] for x in P.CLOCK.readings if x[0] == r.pid]
         snap1 = sim.snap()
         outs, probs = OP.judge(sim.root, snap0, snap1, named, mounts, skel)
         for clause, detail, nm in probs:
